@@ -43,6 +43,7 @@ type sessRT struct {
 	sconn                      net.Conn
 	dirs                       [2]*dirRT // 0: c2s, 1: s2c
 	sready                     chan struct{}
+	acceptedAt                 time.Duration // when the server application got the session from Accept
 	readDone                   [2]chan struct{} // closed when the reader of that direction has read everything expected
 	wrDone                     [2]chan struct{} // closed when the writer of that direction has returned from its last Write
 	closing                    chan struct{}    // closed when the harness starts closing the session
@@ -124,6 +125,7 @@ func (rt *sessRT) runClientSide() {
 func (rt *sessRT) runServerSide(conn net.Conn) {
 	defer rt.w.wg.Done()
 	rt.sconn = conn
+	rt.acceptedAt = time.Duration(rt.w.nowUs()) * time.Microsecond
 	if uc, ok := conn.(apicommon.UserContext); ok {
 		rt.user = uc.UserName()
 	}
